@@ -134,6 +134,25 @@ def binMatches (c : Cmd) (exp : SOut) (fs : List BinFrame) : Bool :=
     let got := body.map frameOf
     termOk && body.all (fun f => f.opcode != Gen.binprot_OpcodeNoop) &&
       got.length == expected.length && expected.all (fun e => got.count e == expected.count e)
+  | .getE g, .gets rs =>
+    -- get-with-expiry: as get, the success frames carry flags and the remaining lifetime (8 bytes of extras)
+    let body := if g.noopEnd then fs.dropLast else fs
+    let termOk := if g.noopEnd then
+        (match fs.getLast? with
+         | some f => f.opcode == Gen.binprot_OpcodeNoop && f.status == 0 && f.opq == g.noopOpaque
+         | none => false)
+      else true
+    let expected : List (Nat × Option (Nat × Bytes)) :=
+      rs.filterMap fun (gk, r) =>
+        match r with
+        | some v => some (gk.opq, some v)
+        | none => if gk.quiet then none else some (gk.opq, none)
+    let frameOf (f : BinFrame) : Nat × Option (Nat × Bytes) :=
+      if f.status == 0 then (f.opq, some (Bytes.rd32 f.extras, f.value)) else (f.opq, none)
+    let got := body.map frameOf
+    termOk && body.all (fun f => f.opcode != Gen.binprot_OpcodeNoop) &&
+      body.all (fun f => f.status != 0 || f.extras.length == 8) &&
+      got.length == expected.length && expected.all (fun e => got.count e == expected.count e)
   | _, .other => true
   | _, _ => false
 
